@@ -118,8 +118,21 @@ func forType(t reflect.Type, seen map[reflect.Type]bool, ignore bool, schemas ma
 	// Follow pointers: the schema for *T is almost the same as for T, except that
 	// an explicit JSON "null" is allowed for the pointer.
 	allowNull := false
+	// A defined pointer type can be recursive (type P *P): remember the named
+	// pointer types met while following pointers so that such a cycle is an
+	// error, like any other recursive type, instead of an endless loop.
+	var ptrSeen map[reflect.Type]bool
 	for t.Kind() == reflect.Pointer {
 		allowNull = true
+		if t.Name() != "" {
+			if ptrSeen[t] {
+				return nil, fmt.Errorf("cycle detected for type %v", t)
+			}
+			if ptrSeen == nil {
+				ptrSeen = make(map[reflect.Type]bool)
+			}
+			ptrSeen[t] = true
+		}
 		t = t.Elem()
 	}
 
